@@ -55,7 +55,8 @@ Qed.
 (* the job a label acts on *)
 Definition job_of (l : label) : option nat :=
   match l with
-  | LSubCheck j | LSubAcquire j | LSubAppend j | LSubStart j | LSubRelease j | LSubWait j
+  | LSubCheck j | LSubAcquire j | LSubRecheck j | LSubUnlock j | LSubAppend j | LSubStart j
+  | LSubRelease j | LSubWait j
   | LPopen j _ | LExit j | LCommRet j _ | LCommTimeout j | LCommExc j | LFinally j
   | LSetResult j | LSdCancel _ j => Some j
   | _ => None
@@ -65,7 +66,9 @@ Definition job_of (l : label) : option nat :=
 Definition job_trans (fl : bool) (l : label) (jb jb' : job) : Prop :=
   match l with
   | LSubCheck _ => spc jb = SCheck /\ jb' = set_spc jb (if fl then SRejected else SAcquire)
-  | LSubAcquire _ => spc jb = SAcquire /\ jb' = set_spc jb SAppend
+  | LSubAcquire _ => spc jb = SAcquire /\ jb' = set_spc jb SRecheck
+  | LSubRecheck _ => spc jb = SRecheck /\ jb' = set_spc jb (if fl then SUnlock else SAppend)
+  | LSubUnlock _ => spc jb = SUnlock /\ jb' = set_spc jb SRejected
   | LSubAppend _ => spc jb = SAppend /\ jb' = set_spc jb SStart
   | LSubStart _ => spc jb = SStart /\ wpc jb = WNew /\
                    jb' = set_w (set_spc jb SRelease) WStarted (proc jb) (exc jb) (out jb) (sets jb)
@@ -106,7 +109,7 @@ Lemma step_jobs st l st' :
   | None => jobs st' = jobs st
   end.
 Proof.
-  destruct l; simpl; unfold on_job, on_sd; simpl; intros H.
+  destruct l; simpl; unfold on_job, on_sd; simpl; intros H; try discriminate.
   all: try (step_inv; simpl in *; eauto 10; fail).
   all: try (step_inv; simpl in *; do 2 eexists; split; [first [eassumption|reflexivity]|]; split; [reflexivity|]; auto; fail).
   step_inv; simpl in *. do 2 eexists; split; [first [eassumption|reflexivity]|]; split; [reflexivity|].
@@ -121,8 +124,7 @@ Definition sd_trans (st : state) (l : label) (s s' : sd) : Prop :=
   | LSdAcquire _ => dpc s = DAcquire /\ dpc s' = DCancel (reg st)
   | LSdCancel _ j => exists pend pend', dpc s = DCancel pend /\ remove1 j pend = Some pend' /\ dpc s' = DCancel pend'
   | LSdSnap _ => dpc s = DSnap /\ dpc s' = DJoin (reg st)
-  | LSdJoin _ => exists j rest, dpc s = DJoin (j :: rest) /\ finished st j = true /\ failed st j = false /\ dpc s' = DJoin rest
-  | LSdRaise _ => exists j rest, dpc s = DJoin (j :: rest) /\ finished st j = true /\ failed st j = true /\ dpc s' = DRaised
+  | LSdJoin _ => exists j rest, dpc s = DJoin (j :: rest) /\ finished st j = true /\ dpc s' = DJoin rest
   | LSdReturn _ => (dpc s = DCancel [] \/ dpc s = DJoin []) /\ dpc s' = DDone
   | _ => False
   end.
@@ -141,12 +143,10 @@ Lemma step_globals st l st' :
   | None => sds st' = sds st
   end.
 Proof.
-  destruct l; simpl; unfold on_job, on_sd, sd_trans; simpl; intros H.
+  destruct l; simpl; unfold on_job, on_sd, sd_trans; simpl; intros H; try discriminate.
   all: try (step_inv; simpl in *; auto; fail).
   all: step_inv; simpl in *; (split; [reflexivity|]); do 2 eexists; (split; [reflexivity|]); (split; [reflexivity|]); simpl; repeat (split || eexists); eauto.
   all: try (rewrite Heqb; reflexivity).
-  all: apply andb_prop in Heqb; destruct Heqb as [Hf1 Hf2]; auto;
-       try (apply negb_true_iff in Hf2; auto).
 Qed.
 
 (* ------------------------------------------------------------------ per-job invariant *)
@@ -367,8 +367,7 @@ Proof.
   - destruct Ht as (-> & ->). lia.
   - destruct Ht as (pend & pend' & -> & Hr & ->). apply remove1_length in Hr. lia.
   - destruct Ht as (-> & ->). lia.
-  - destruct Ht as (j & rest & -> & _ & _ & ->). simpl. lia.
-  - destruct Ht as (j & rest & -> & _ & _ & ->). simpl. lia.
+  - destruct Ht as (j & rest & -> & _ & ->). simpl. lia.
   - destruct Ht as ([-> | ->] & ->); simpl; lia.
 Qed.
 
@@ -431,10 +430,10 @@ Proof.
 Qed.
 
 Lemma rank_init tmos waits :
-  rank (init tmos waits) = 16 * length tmos + (5 + length tmos) * length waits.
+  rank (init tmos waits) = 17 * length tmos + (5 + length tmos) * length waits.
 Proof.
   unfold rank, phi, init; simpl.
-  rewrite (sum_const rank_job 16), (sum_const pre_append 1), !map_length.
+  rewrite (sum_const rank_job 17), (sum_const pre_append 1), !map_length.
   - rewrite (sum_const _ (5 + 1 * length tmos)), map_length; [lia|].
     intros x Hx. apply in_map_iff in Hx. destruct Hx as (w & <- & _). reflexivity.
   - intros x Hx. apply in_map_iff in Hx. destruct Hx as (w & <- & _). reflexivity.
@@ -443,24 +442,21 @@ Qed.
 
 Lemma schedules_bounded tmos waits sched st :
   run (init tmos waits) sched = Some st ->
-  length sched <= 16 * length tmos + (5 + length tmos) * length waits.
+  length sched <= 17 * length tmos + (5 + length tmos) * length waits.
 Proof. intros H. apply run_rank in H. rewrite rank_init in H. lia. Qed.
 
-(* ------------------------------------------------------------------ the two refuted clauses: witnesses *)
-
-(* F5: submit tests the flag before taking the lock *)
-Definition witness_accept : list label :=
-  [LSubCheck 0; LSdSet 0; LSdAcquire 0; LSdReturn 0;
-   LSubAcquire 0; LSubAppend 0; LSubStart 0; LSubRelease 0; LPopen 0 true].
+(* ------------------------------------------------------------------ the refuted clauses: witnesses *)
 
 (* F6: cancel() is a no-op while self.process is None *)
 Definition witness_process : list label :=
-  [LSubCheck 0; LSubAcquire 0; LSubAppend 0; LSubStart 0; LSubRelease 0;
+  [LSubCheck 0; LSubAcquire 0; LSubRecheck 0; LSubAppend 0; LSubStart 0; LSubRelease 0;
    LSdSet 0; LSdAcquire 0; LSdCancel 0 0; LSdReturn 0; LPopen 0 true].
 
-(* join snapshot taken without the lock (wait=True) *)
+(* join snapshot taken without the lock (wait=True): the submitter has passed BOTH flag tests
+   (the second one holding the lock) before the request; shutdown(wait=True) snapshots an
+   empty registry and returns while the submitter still holds the lock *)
 Definition witness_join : list label :=
-  [LSubCheck 0; LSubAcquire 0; LSdSet 0; LSdSnap 0; LSdReturn 0;
+  [LSubCheck 0; LSubAcquire 0; LSubRecheck 0; LSdSet 0; LSdSnap 0; LSdReturn 0;
    LSubAppend 0; LSubStart 0; LSubRelease 0; LPopen 0 true].
 
 Definition running (st : state) (j : nat) : bool :=
@@ -474,18 +470,6 @@ Definition returned (st : state) (k : nat) : bool :=
   | None => false
   end.
 
-Lemma accept_after_shutdown_witness :
-  exists st, run (init [false] [false]) witness_accept = Some st /\
-             accepted_after_return witness_accept /\ spawned_after_return witness_accept /\
-             returned st 0 = true /\ running st 0 = true.
-Proof.
-  eexists. split; [vm_compute; reflexivity|]. split; [|split; [|split; reflexivity]].
-  - exists [LSubCheck 0; LSdSet 0; LSdAcquire 0; LSdReturn 0; LSubAcquire 0; LSubAppend 0],
-           [LSubRelease 0; LPopen 0 true], 0, 0. split; [reflexivity|]. simpl; auto.
-  - exists [LSubCheck 0; LSdSet 0; LSdAcquire 0; LSdReturn 0; LSubAcquire 0; LSubAppend 0; LSubStart 0; LSubRelease 0],
-           [], 0, 0. split; [reflexivity|]. simpl; auto.
-Qed.
-
 Lemma process_after_shutdown_witness :
   exists st, run (init [false] [false]) witness_process = Some st /\
              ~ accepted_after_return witness_process /\ spawned_after_return witness_process /\
@@ -496,8 +480,8 @@ Proof.
     unfold witness_process in Heq.
     repeat (destruct pre as [|? pre]; simpl in Heq; [inversion Heq; subst; simpl in Hin; intuition discriminate|
             inversion Heq; subst; clear Heq; rename H1 into Heq]).
-  - exists [LSubCheck 0; LSubAcquire 0; LSubAppend 0; LSubStart 0; LSubRelease 0; LSdSet 0; LSdAcquire 0; LSdCancel 0 0; LSdReturn 0],
-           [], 0, 0. split; [reflexivity|]. simpl; auto 10.
+  - exists [LSubCheck 0; LSubAcquire 0; LSubRecheck 0; LSubAppend 0; LSubStart 0; LSubRelease 0; LSdSet 0; LSdAcquire 0; LSdCancel 0 0; LSdReturn 0],
+           [], 0, 0. split; [reflexivity|]. simpl; auto 12.
 Qed.
 
 Lemma join_snapshot_witness :
@@ -505,14 +489,14 @@ Lemma join_snapshot_witness :
              accepted_after_return witness_join /\ returned st 0 = true /\ running st 0 = true.
 Proof.
   eexists. split; [vm_compute; reflexivity|]. split; [|split; reflexivity].
-  exists [LSubCheck 0; LSubAcquire 0; LSdSet 0; LSdSnap 0; LSdReturn 0; LSubAppend 0],
+  exists [LSubCheck 0; LSubAcquire 0; LSubRecheck 0; LSdSet 0; LSdSnap 0; LSdReturn 0; LSubAppend 0],
          [LSubRelease 0; LPopen 0 true], 0, 0. split; [reflexivity|]. simpl; auto 10.
 Qed.
 
 (* ------------------------------------------------------------------ global invariant, deadlock-freedom *)
 
 Definition holding (p : spc_t) : bool :=
-  match p with SAppend | SStart | SRelease => true | _ => false end.
+  match p with SRecheck | SAppend | SStart | SRelease | SUnlock => true | _ => false end.
 Definition post_append (p : spc_t) : bool :=
   match p with SStart | SRelease | SWait | SGot _ => true | _ => false end.
 
@@ -534,14 +518,14 @@ Lemma step_lock st l st' :
   step st l = Some st' ->
   match l with
   | LSubAcquire j => lock st = None /\ lock st' = Some (OSub j)
-  | LSubRelease _ => lock st' = None
+  | LSubRelease _ | LSubUnlock _ => lock st' = None
   | LSdAcquire k => lock st = None /\ lock st' = Some (OSd k)
   | LSdReturn k => exists s, nth_error (sds st) k = Some s /\
                      ((dpc s = DCancel [] /\ lock st' = None) \/ (dpc s = DJoin [] /\ lock st' = lock st))
   | _ => lock st' = lock st
   end.
 Proof.
-  destruct l; simpl; unfold on_job, on_sd; simpl; intros H.
+  destruct l; simpl; unfold on_job, on_sd; simpl; intros H; try discriminate.
   all: step_inv; simpl in *; auto.
   all: try (destruct (lock st); simpl in *; [discriminate | auto]; fail).
   all: eexists; split; [reflexivity|]; auto.
@@ -550,10 +534,10 @@ Qed.
 Lemma job_trans_spc fl l jb jb' :
   job_trans fl l jb jb' ->
   (post_append (spc jb) = true -> post_append (spc jb') = true) /\
-  holding (spc jb') = (match l with LSubAcquire _ => true | LSubRelease _ => false | _ => holding (spc jb) end) /\
+  holding (spc jb') = (match l with LSubAcquire _ => true | LSubRelease _ | LSubUnlock _ => false | _ => holding (spc jb) end) /\
   (match l with
    | LSubAcquire _ => holding (spc jb) = false
-   | LSubRelease _ => holding (spc jb) = true
+   | LSubRelease _ | LSubUnlock _ => holding (spc jb) = true
    | LSubAppend _ => post_append (spc jb') = true
    | _ => True end).
 Proof.
@@ -636,6 +620,10 @@ Proof.
     + pose proof (g_hold _ G _ _ Ho Hh) as Hl.
       destruct l; simpl in *; try congruence.
       * destruct HL; congruence.
+      * (* unlock by another job j: it held the lock too *)
+        destruct HJ as (jb0 & jb1 & Hn0 & _ & Hs & _).
+        assert (Hh0 : holding (spc jb0) = true) by (rewrite Hs; reflexivity).
+        pose proof (g_hold _ G _ _ Hn0 Hh0). assert (i = j) by congruence. congruence.
       * (* release by another job j: it held the lock too *)
         destruct HJ as (jb0 & jb1 & Hn0 & _ & Hs & _).
         assert (Hh0 : holding (spc jb0) = true) by (rewrite Hs; reflexivity).
@@ -647,6 +635,7 @@ Proof.
       destruct l; simpl in *; try discriminate; inversion Hje; subst;
         try (rewrite Hh' in Hh; rewrite HL; eapply g_hold; eauto; fail).
       * destruct HL; auto.
+      * rewrite Hh' in Hh. discriminate.
       * rewrite Hh' in Hh. discriminate.
   - (* g_sub *)
     intros i Hl.
@@ -662,7 +651,7 @@ Proof.
       * destruct Hj as (jb0 & jb1 & Hn0 & Hjs & Ht). rewrite Hjs, (nth_set_nth _ _ _ _ _ Hn0).
         destruct (Nat.eqb_spec i i0); eauto. subst i0. rewrite Hn in Hn0; inversion Hn0; subst jb0.
         eexists; split; eauto. destruct (job_trans_spc _ _ _ _ Ht) as (_ & Hh' & _). rewrite Hh'.
-        destruct l; simpl in *; try discriminate; auto. inversion Ej; subst. congruence.
+        destruct l; simpl in *; try discriminate; auto. all: inversion Ej; subst; congruence.
       * rewrite Hj; eauto.
     + pose proof (step_jobs _ _ _ H) as Hj. simpl in Hj. destruct Hj as (jb0 & jb1 & Hn0 & Hjs & Hs & ->).
       rewrite Hjs, nth_set_nth_eq; [|apply nth_error_Some; congruence]. eexists; split; eauto.
@@ -674,16 +663,18 @@ Proof.
       * destruct HJ as (jb0 & jb1 & Hn0 & _ & Hs & _).
         assert (Hh0 : holding (spc jb0) = true) by (rewrite Hs; reflexivity).
         pose proof (g_hold _ G _ _ Hn0 Hh0). congruence.
+      * destruct HJ as (jb0 & jb1 & Hn0 & _ & Hs & _).
+        assert (Hh0 : holding (spc jb0) = true) by (rewrite Hs; reflexivity).
+        pose proof (g_hold _ G _ _ Hn0 Hh0). congruence.
       * destruct HL; congruence.
       * destruct HL as (s0 & Hs0 & [(Hd0 & _) | (_ & Hl')]); [|congruence].
         pose proof (g_canc _ G _ _ _ Hs0 Hd0). assert (k = k0) by congruence. congruence.
-    + destruct Ht as (_ & Ht). destruct l; simpl in *; try discriminate; inversion Hke; subst.
+    + destruct Ht as (_ & Ht). destruct l; simpl in *; try discriminate; try contradiction; inversion Hke; subst.
       * destruct Ht as (_ & Hd'). rewrite Hd in Hd'. destruct (swait s); discriminate.
       * destruct HL; auto.
       * destruct Ht as (p0 & p1 & Hd0 & _ & _). rewrite HL. eapply g_canc; eauto.
       * destruct Ht as (_ & Hd'). congruence.
-      * destruct Ht as (? & ? & _ & _ & _ & Hd'). congruence.
-      * destruct Ht as (? & ? & _ & _ & _ & Hd'). congruence.
+      * destruct Ht as (? & ? & _ & _ & Hd'). congruence.
       * destruct Ht as (_ & Hd'). congruence.
   - (* g_sd *)
     intros k Hl.
@@ -699,7 +690,7 @@ Proof.
       pose proof (step_globals _ _ _ H) as (_ & Hs). destruct (sd_of l) as [k0|] eqn:Ek.
       * destruct Hs as (s0 & s1 & Hn0 & Hss & Ht). rewrite Hss, (nth_set_nth _ _ _ _ _ Hn0).
         destruct (Nat.eqb_spec k k0); eauto. subst k0. rewrite Hn in Hn0; inversion Hn0; subst s0.
-        destruct Ht as (_ & Ht). destruct l; simpl in *; try discriminate; inversion Ek; subst;
+        destruct Ht as (_ & Ht). destruct l; simpl in *; try discriminate; try contradiction; inversion Ek; subst;
           try (destruct Ht as (Hd0 & _); congruence);
           try (destruct Ht as (? & ? & Hd0 & _); congruence).
         -- destruct Ht as (p0 & p1 & _ & _ & Hd1). eauto.
@@ -721,7 +712,7 @@ Proof.
     destruct (step_sd_at _ _ _ _ _ H Hn) as [(Ho & Hne) | (Hke & s & Ho & Ht)].
     + eapply registered_step; eauto. eapply g_pend; eauto.
     + eapply registered_step; eauto. destruct Ht as (_ & Ht).
-      destruct l; simpl in *; try discriminate; inversion Hke; subst.
+      destruct l; simpl in *; try discriminate; try contradiction; inversion Hke; subst.
       * destruct Ht as (_ & Hd'). rewrite Hd' in Hd. destruct (swait s); destruct Hd; discriminate.
       * destruct Ht as (_ & Hd'). rewrite Hd' in Hd. destruct Hd as [Hd|Hd]; inversion Hd; subst.
         eapply g_reg; eauto.
@@ -729,9 +720,8 @@ Proof.
         eapply g_pend; eauto. eapply remove1_In; eauto.
       * destruct Ht as (_ & Hd'). rewrite Hd' in Hd. destruct Hd as [Hd|Hd]; inversion Hd; subst.
         eapply g_reg; eauto.
-      * destruct Ht as (j0 & rest & Hd0 & _ & _ & Hd'). rewrite Hd' in Hd. destruct Hd as [Hd|Hd]; inversion Hd; subst.
+      * destruct Ht as (j0 & rest & Hd0 & _ & Hd'). rewrite Hd' in Hd. destruct Hd as [Hd|Hd]; inversion Hd; subst.
         eapply g_pend; eauto. simpl; auto.
-      * destruct Ht as (j0 & rest & Hd0 & _ & _ & Hd'). rewrite Hd' in Hd. destruct Hd; discriminate.
       * destruct Ht as (_ & Hd'). rewrite Hd' in Hd. destruct Hd; discriminate.
 Qed.
 
@@ -747,7 +737,7 @@ Qed.
 Definition job_final (jb : job) : Prop :=
   match spc jb with SGot _ | SRejected => True | _ => False end.
 Definition sd_final (s : sd) : Prop :=
-  match dpc s with DDone | DRaised => True | _ => False end.
+  match dpc s with DDone => True | _ => False end.
 
 Definition can_step (st : state) : Prop := exists l st', step st l = Some st'.
 
@@ -759,12 +749,14 @@ Proof.
   - destruct (g_sub _ G _ El) as (jb & Hn & Hh).
     pose proof (Forall_nth _ _ _ _ (g_jobs _ G) Hn) as Hok.
     destruct (spc jb) eqn:Es; try discriminate.
+    + fire (LSubRecheck i). rewrite Hn, Es. eauto.
     + fire (LSubAppend i). rewrite Hn, Es. eauto.
     + assert (Hw : wpc jb = WNew).
       { unfold job_ok, started_spc in Hok. rewrite Es in Hok.
         destruct (wpc jb); auto; intuition (try congruence; try discriminate). }
       fire (LSubStart i). rewrite Hn, Es, Hw. eauto.
     + fire (LSubRelease i). rewrite Hn, Es. eauto.
+    + fire (LSubUnlock i). rewrite Hn, Es. eauto.
   - destruct (g_sd _ G _ El) as (s & pl & Hn & Hd). destruct pl as [|j r].
     + fire (LSdReturn k). rewrite Hn, Hd. eauto.
     + destruct (g_pend _ G _ _ _ Hn (or_introl Hd) j (or_introl eq_refl)) as (jb & Hj & _).
@@ -790,6 +782,7 @@ Proof.
   - destruct (lock st) eqn:El.
     + apply holder_moves; auto. congruence.
     + fire (LSubAcquire j). rewrite El. simpl. rewrite Hn, Es. eauto.
+  - fire (LSubRecheck j). rewrite Hn, Es. eauto.
   - fire (LSubAppend j). rewrite Hn, Es. eauto.
   - assert (Hw : wpc jb = WNew).
     { unfold job_ok, started_spc in Hok. rewrite Es in Hok.
@@ -804,6 +797,7 @@ Proof.
     + eapply worker_moves; eauto; congruence.
     + assert (Hs : sets jb = 1) by (unfold job_ok in Hok; rewrite Ew in Hok; intuition).
       fire (LSubWait j). rewrite Hn, Es, Hs. simpl. eauto.
+  - fire (LSubUnlock j). rewrite Hn, Es. eauto.
 Qed.
 
 Lemma sd_moves st k s :
@@ -825,9 +819,7 @@ Proof.
       assert (Hs : sets jb = 1).
       { unfold job_ok, started_spc in Hok. rewrite Es in Hok.
         destruct (wpc jb); intuition (try congruence; try discriminate). }
-      destruct (exc jb) eqn:Ee.
-      * fire (LSdRaise k). rewrite Hn, Ed. unfold finished, failed. rewrite Hj, Hs, Ee. simpl. eauto.
-      * fire (LSdJoin k). rewrite Hn, Ed. unfold finished, failed. rewrite Hj, Hs, Ee. simpl. eauto.
+      fire (LSdJoin k). rewrite Hn, Ed. unfold finished. rewrite Hj, Hs. simpl. eauto.
 Qed.
 
 Definition reachable (tmos waits : list bool) (st : state) : Prop :=
@@ -855,7 +847,7 @@ Lemma quiescent_exactly_once tmos waits sched st :
   (forall j jb, nth_error (jobs st) j = Some jb ->
      (spc jb = SRejected /\ wpc jb = WNew /\ deliveries j sched = 0 /\ proc jb = PNone) \/
      (spc jb = SGot (low_level jb) /\ wpc jb = WDone /\ deliveries j sched = 1 /\ proc jb <> PRun)) /\
-  (forall k s, nth_error (sds st) k = Some s -> dpc s = DDone \/ dpc s = DRaised).
+  (forall k s, nth_error (sds st) k = Some s -> dpc s = DDone).
 Proof.
   intros Hrun Hq.
   assert (G : ginv st) by (eapply run_ginv; [apply init_ginv|eauto]).
@@ -907,7 +899,7 @@ Lemma all_labels_complete st l st' : step st l = Some st' -> In l (all_labels st
 Proof.
   intros H. pose proof (step_jobs _ _ _ H) as HJ. pose proof (step_globals _ _ _ H) as (_ & HG).
   unfold all_labels.
-  destruct l; simpl in HJ, HG;
+  destruct l; try (simpl in H; discriminate); simpl in HJ, HG;
     try (destruct HJ as (jb & jb' & Hn & _);
          apply in_or_app; left; apply in_flat_map; exists j; split;
          [apply in_seq; split; [lia|]; simpl; apply nth_error_Some; congruence|];
@@ -942,11 +934,11 @@ Qed.
 Lemma no_deadlock_run tmos waits sched st :
   run (init tmos waits) sched = Some st ->
   (exists j jb, nth_error (jobs st) j = Some jb /\ spc jb <> SRejected /\ (forall v, spc jb <> SGot v)) \/
-  (exists k s, nth_error (sds st) k = Some s /\ dpc s <> DDone /\ dpc s <> DRaised) ->
+  (exists k s, nth_error (sds st) k = Some s /\ dpc s <> DDone) ->
   exists l st', step st l = Some st'.
 Proof.
   intros Hrun Hc. apply (no_deadlock tmos waits); [exists sched; auto|].
-  destruct Hc as [(j & jb & Hn & H1 & H2) | (k & s & Hn & H1 & H2)]; [left|right].
+  destruct Hc as [(j & jb & Hn & H1 & H2) | (k & s & Hn & H1)]; [left|right].
   - exists j, jb. split; auto. unfold job_final. destruct (spc jb); auto; try congruence.
   - exists k, s. split; auto. unfold sd_final. destruct (dpc s); auto; congruence.
 Qed.
@@ -958,7 +950,7 @@ Lemma wait_returns tmos waits sched st :
     (forall j jb, nth_error (jobs st') j = Some jb ->
        (spc jb = SRejected /\ deliveries j (sched ++ ext) = 0) \/
        (spc jb = SGot (low_level jb) /\ deliveries j (sched ++ ext) = 1)) /\
-    (forall k s, nth_error (sds st') k = Some s -> dpc s = DDone \/ dpc s = DRaised).
+    (forall k s, nth_error (sds st') k = Some s -> dpc s = DDone).
 Proof.
   intros Hrun. destruct (extends_to_quiescent st) as (ext & st' & He & Hq).
   exists ext, st'.
@@ -980,14 +972,6 @@ Proof.
   intros v Hs. apply Hv in Hs. subst. split; [reflexivity|discriminate].
 Qed.
 
-Lemma no_accept_after_shutdown_refuted :
-  exists tmos waits sched st,
-    run (init tmos waits) sched = Some st /\ accepted_after_return sched.
-Proof.
-  destruct accept_after_shutdown_witness as (st & Hr & Ha & _).
-  exists [false], [false], witness_accept, st. auto.
-Qed.
-
 Lemma no_process_after_shutdown_refuted :
   exists tmos waits sched st k j,
     run (init tmos waits) sched = Some st /\ ~ accepted_after_return sched /\
@@ -995,56 +979,6 @@ Lemma no_process_after_shutdown_refuted :
 Proof.
   destruct process_after_shutdown_witness as (st & Hr & Ha & Hs & Hk & Hj).
   exists [false], [false], witness_process, st, 0, 0. auto.
-Qed.
-
-(* shutdown(wait=True) re-raises the exception of a failed / timed-out job out of _join
-   and abandons the jobs it has not waited for yet *)
-Definition witness_raise : list label :=
-  [LSubCheck 0; LSubAcquire 0; LSubAppend 0; LSubStart 0; LSubRelease 0;
-   LSubCheck 1; LSubAcquire 1; LSubAppend 1; LSubStart 1; LSubRelease 1;
-   LPopen 0 true; LPopen 1 true; LCommTimeout 0; LFinally 0; LSetResult 0;
-   LSdSet 0; LSdSnap 0; LSdRaise 0].
-
-Definition raisedb (st : state) (k : nat) : bool :=
-  match nth_error (sds st) k with
-  | Some s => match dpc s with DRaised => true | _ => false end
-  | None => false
-  end.
-
-Lemma shutdown_wait_raises_refuted :
-  exists tmos sched st,
-    run (init tmos [true]) sched = Some st /\ shutdown_raised 0 sched /\
-    ~ accepted_after_return sched /\ raisedb st 0 = true /\ running st 1 = true /\
-    forall ext st', run st ext = Some st' -> raisedb st' 0 = true.
-Proof.
-  exists [true; false], witness_raise. eexists. split; [vm_compute; reflexivity|].
-  split; [unfold shutdown_raised, witness_raise; simpl; auto 20|].
-  split.
-  { intros (pre & post & j & k & Heq & Hin). unfold witness_raise in Heq.
-    repeat (destruct pre as [|? pre]; simpl in Heq; [inversion Heq; subst; simpl in Hin; intuition discriminate|
-            inversion Heq; subst; clear Heq; rename H1 into Heq]). }
-  split; [reflexivity|]. split; [reflexivity|].
-  (* DRaised is terminal: no label moves shutdown caller 0 any more *)
-  assert (Hstep : forall s l s', raisedb s 0 = true -> step s l = Some s' -> raisedb s' 0 = true).
-  { intros s l s' Hr Hs. apply step_globals in Hs. destruct Hs as (_ & Hs).
-    unfold raisedb in *. destruct (sd_of l) as [k|].
-    - destruct Hs as (x & x' & Hn & Hss & Ht). rewrite Hss.
-      destruct (Nat.eqb_spec 0 k).
-      + subst k. rewrite Hn in Hr. exfalso. unfold sd_trans in Ht. destruct Ht as (_ & Ht).
-        destruct (dpc x) eqn:Ed; try discriminate.
-        destruct l; try contradiction;
-          repeat match goal with
-                 | H : _ /\ _ |- _ => destruct H
-                 | H : exists _, _ |- _ => destruct H
-                 | H : _ \/ _ |- _ => destruct H
-                 end; congruence.
-      + rewrite nth_set_nth_neq; auto.
-    - rewrite Hs; auto. }
-  intros ext. induction ext as [|l ext IH] using rev_ind; intros st' Hrun.
-  - simpl in Hrun. inversion Hrun; subst. reflexivity.
-  - rewrite run_app in Hrun. destruct (run _ ext) eqn:E; try discriminate.
-    simpl in Hrun. destruct (step s l) eqn:Es; try discriminate. inversion Hrun; subst.
-    eapply Hstep; [|eauto]. apply IH. reflexivity.
 Qed.
 
 Lemma join_misses_accepted_job_refuted :
